@@ -30,6 +30,10 @@ pub enum HOp {
     Begin { tok: usize, out: BeginOut },
     Commit { tok: usize, amount: u64, out: RevOut },
     Cancel { tok: usize, out: RevOut },
+    /// `configure()` is called and the terminal refuses its very first exchange (system information) with this abort code:
+    /// the call fails before it touches anything, so the token map must be what it was (only the first such step of a
+    /// history is executed)
+    ConfigureRefused { code: u8 },
 }
 #[derive(Serialize, Deserialize, Clone, Debug, PartialEq)]
 pub struct History {
@@ -89,6 +93,7 @@ pub fn walk(h: &History) -> (Vec<ExpCall>, Vec<PlanEntry>) {
     let mut dangling = h.dangling;
     let (mut n_res, mut n_prev, mut n_pre, mut n_pend, mut n_eod, mut n_dang) = (0usize, 0usize, 0usize, 0usize, 0usize, 0usize);
     let mut issued = 0usize;
+    let mut n_cfg = 0usize;
     let mut plan: Vec<PlanEntry> = vec![];
     let mut calls = vec![];
     let pe = |kind: Kind, occ: usize, outcome: Outcome| PlanEntry { kind, occ: Some(occ), from_start: false, directive: Directive { outcome, ..Default::default() } };
@@ -101,6 +106,14 @@ pub fn walk(h: &History) -> (Vec<ExpCall>, Vec<PlanEntry>) {
         let eod_out = |n: usize| if is_drain || h.eod.is_empty() { RevOut::Completion } else { h.eod[n % h.eod.len()] };
         let dang_out = |n: usize| if is_drain || h.dangling_reversal.is_empty() { RevOut::Completion } else { h.dangling_reversal[n % h.dangling_reversal.len()] };
         match step {
+            HOp::ConfigureRefused { code } => {
+                if n_cfg > 0 {
+                    continue;
+                }
+                n_cfg += 1;
+                plan.push(pe(Kind::SystemInfo, 0, Outcome::Abort(code)));
+                calls.push(ExpCall { op: Op::Configure, accepted: true, own: vec![], own_result: ExpResult::Err, cleanup: None, final_result: ExpResult::Err, open_after: open.len() });
+            }
             HOp::Begin { tok, out } => {
                 let t = h.tokens[tok % h.tokens.len()].clone();
                 let op = Op::Begin(t.clone());
@@ -275,13 +288,14 @@ pub fn check_history(prop: &str, h: &History) -> CheckResult {
         return Ok(());
     }
     let t = crate::table();
-    let nsteps = h.steps.len();
+    // (refused-configure steps after the first are not executed: count the calls, not the steps)
+    let nsteps = exp.len().saturating_sub(h.tokens.len());
     for (k, (e, c)) in exp.iter().zip(&tr.calls).enumerate() {
         let drain = k >= nsteps;
         let label = format!("call {k}{} {:?}", if drain { " (drain)" } else { "" }, e.op);
         let v = |p: &str, kind: &str, detail: String| -> CheckResult {
             if p == prop {
-                Err(Violation::new("history", format!("{p} op={} kind={kind}", match &e.op { Op::Begin(_) => "begin", Op::Commit(..) => "commit", Op::Cancel(_) => "cancel", _ => "?" }), detail, input.clone()))
+                Err(Violation::new("history", format!("{p} op={} kind={kind}", match &e.op { Op::Begin(_) => "begin", Op::Commit(..) => "commit", Op::Cancel(_) => "cancel", Op::Configure => "configure", _ => "?" }), detail, input.clone()))
             } else {
                 Ok(())
             }
@@ -291,6 +305,14 @@ pub fn check_history(prop: &str, h: &History) -> CheckResult {
         }
         let got = c.result.as_ref().unwrap();
         let reqs = decoded_requests(&tr.world, c.req_from, c.req_to);
+        if matches!(e.op, Op::Configure) {
+            // premise of the step: the refused system-information exchange was all that happened and the call failed;
+            // otherwise the rest of the history says nothing
+            if got.is_ok() || reqs.len() != 1 || reqs[0].0 != Kind::SystemInfo {
+                return Ok(());
+            }
+            continue;
+        }
         if !e.accepted {
             // refused: documented error, zero bytes, no connection
             if !result_matches(&e.own_result, got) {
@@ -404,6 +426,7 @@ fn history_strategy() -> impl Strategy<Value = History> {
         3 => (0usize..5, begin_out).prop_map(|(tok, out)| HOp::Begin { tok, out }),
         2 => (0usize..5, any::<u64>(), prop_oneof![6 => rev_out.clone(), 1 => Just(RevOut::CompletionNoStatus)]).prop_map(|(tok, amount, out)| HOp::Commit { tok, amount, out }),
         2 => (0usize..5, rev_out.clone()).prop_map(|(tok, out)| HOp::Cancel { tok, out }),
+        1 => prop_oneof![Just(0x83u8), Just(0x6c), any::<u8>()].prop_map(|code| HOp::ConfigureRefused { code }),
     ];
     (
         0usize..=3,
@@ -502,6 +525,11 @@ pub fn run(prop: &'static str, tier: Tier) -> i32 {
             let (exp, _) = walk(h);
             st.case(nontrivial(&exp, h.steps.len()), fnv(&serde_json::to_vec(h).unwrap()));
             st.class(if h.steps.len() > 10 { "walk:len>10" } else { "walk:len<=10" });
+            if let Some(p) = exp.iter().position(|c| matches!(c.op, Op::Configure)) {
+                if exp[..p].iter().any(|c| c.accepted && matches!(c.op, Op::Begin(_))) {
+                    st.class("walk:configure-refused-after-a-begin");
+                }
+            }
             if exp.iter().any(|c| matches!(&c.cleanup, Some(cl) if cl.iter().any(|r| matches!(r, ExpReq::PreAuthReversal { .. })))) {
                 st.class("walk:dangling-reversed");
             }
